@@ -387,7 +387,7 @@ def stepPunct (σ : St) (p : String) (nl : Bool) : St :=
     match clsBody with
     | some e => { stmtPos (push σ (.brace true e)) with clsHead := none }
     | none =>
-      if σ.stmtStart then stmtPos (push σ (.brace true false))
+      if σ.stmtStart || σ.ctlKw then stmtPos (push σ (.brace true false))   -- `catch {`
       else match σ.fnBody with
         | some e => stmtPos (push σ (.brace true e))
         | none =>
